@@ -294,6 +294,13 @@ def epr_receive(conn, sock, variant, number, expect_phi_plus, extra_qubits):
         qs = sock.recv_keep(number=number, sequential=True, post_routine=_noop_post, expect_phi_plus=expect_phi_plus)
     elif variant == "recv_keep_post_nonseq":
         qs = sock.recv_keep(number=number, sequential=False, post_routine=_noop_post, expect_phi_plus=expect_phi_plus)
+    elif variant == "recv_keep_then_post":
+        # two receives on ONE connection: a plain one, then a sequential one with a post routine (number - 1 pairs)
+        qs = sock.recv_keep(number=1, expect_phi_plus=expect_phi_plus)
+        qs = qs + sock.recv_keep(number=number - 1, sequential=True, post_routine=_noop_post, expect_phi_plus=expect_phi_plus)
+    elif variant == "recv_post_then_keep":
+        qs = sock.recv_keep(number=number - 1, sequential=True, post_routine=_noop_post, expect_phi_plus=expect_phi_plus)
+        qs = qs + sock.recv_keep(number=1, expect_phi_plus=expect_phi_plus)
     elif variant == "recv_rsp":
         qs = sock.recv_rsp(number=number, expect_phi_plus=expect_phi_plus)
     elif variant == "recv_rsp_with_info":
